@@ -56,6 +56,7 @@ def matrix_cases():
                 bql.select([(K, None), (a, 'v')], ('table', 'm'), group_by=[K]),                           # by name/expr
                 bql.select([(a, 'v'), (K, 'kk')], ('table', 'm'), group_by=[2]),                           # by position
                 bql.select([(a, 'v'), (K, 'kk')], ('table', 'm'), group_by=[['col', 'kk']]),               # by alias
+                bql.select([(a, 'v'), (K, 'rid')], ('table', 'm'), group_by=[['col', 'rid']]),             # alias = another column's name
                 bql.select([(a, 'v')], ('table', 'm'), group_by=[K]),                                      # hidden key
                 bql.select([(a, 'v'), (star, 'n')], ('table', 'm')),                                      # no key
                 bql.select([(a, 'v')], ('table', 'm'), group_by=[['fn', 'upper', [K]], ['isnull', X]]),    # hidden exprs
